@@ -29,6 +29,13 @@ const POOL: &[&str] = &[
   "_t1",
   "std",
   "DUMMY",
+  // exactly 15 bytes whose last byte is not ASCII (the byte that shares its position with the tag)
+  "thirteen_char\u{e9}",
+  "abcdefghijklm\u{c0}",
+  "twelve_chars\u{65e5}",
+  "\u{0}\u{0}\u{0}zzzzzzzzzz\u{e9}",
+  // 16 bytes ending in a multi-byte character
+  "fourteen_chars\u{e9}",
 ];
 
 fn gen_ops(rng: &mut Rng, maxlen: usize) -> Vec<Value> {
